@@ -785,6 +785,28 @@ fn random_multi_kind(rng: &mut Rng, exact: bool) -> SortKind {
     }
 }
 
+/// sort on one of the u64 / i64 / f64 / date / string fast fields, through every collector flavour
+fn random_field_kind(rng: &mut Rng) -> SortKind {
+    let ord = |rng: &mut Rng| if rng.bool() { Order::Asc } else { Order::Desc };
+    let cmp = |rng: &mut Rng| {
+        *rng.pick(&[
+            Cmp1::Natural,
+            Cmp1::Reverse,
+            Cmp1::ReverseNoneLower,
+            Cmp1::NaturalNoneHigher,
+        ])
+    };
+    let ff = |rng: &mut Rng| *rng.pick(&[FF::U, FF::I, FF::F, FF::D, FF::S]);
+    match rng.weighted(&[2, 5, 4, 3, 2, 1]) {
+        0 => SortKind::U64Field(ord(rng)),
+        1 => SortKind::Fast(ff(rng), ord(rng)),
+        2 => SortKind::FastCmp(ff(rng), cmp(rng)),
+        3 => SortKind::Erased(ff(rng), cmp(rng)),
+        4 => SortKind::TupleUI(ord(rng), ord(rng)),
+        _ => SortKind::Tuple3UIF(ord(rng), ord(rng), ord(rng)),
+    }
+}
+
 fn random_sort_kind(rng: &mut Rng, exact: bool) -> SortKind {
     let ord = |rng: &mut Rng| if rng.bool() { Order::Asc } else { Order::Desc };
     let cmp = |rng: &mut Rng| {
@@ -963,7 +985,7 @@ fn gen_corpus(rng: &mut Rng, quick: bool) -> Corpus {
     } else {
         rng.urange(1, 8).min(n)
     };
-    let cuts = if nseg >= 2 && rng.chance(1, 3) {
+    let cuts = if nseg >= 2 && rng.chance(if nseg >= 4 { 3 } else { 2 }, 6) {
         // segments of (nearly) equal size
         let mut c: Vec<usize> = (1..nseg).map(|i| i * n / nseg).filter(|&c| c >= 1 && c < n).collect();
         c.dedup();
@@ -1002,16 +1024,25 @@ fn gen_corpus(rng: &mut Rng, quick: bool) -> Corpus {
         })
         .collect();
     let few_values = rng.chance(1, 2);
-    // third value profile: keys that follow the insertion order in runs of `g` equal values
-    // (timestamps, counters): tie groups of moderate size, each inside one segment, and whole
-    // segments whose keys are all better (or all worse) than those of the other segments
-    let runs: Option<(u64, bool)> = if rng.chance(1, 4) {
-        Some((*rng.pick(&[2u64, 3, 5, 8, 16]), rng.bool()))
+    // third value profile ("drift"): five values per field, drawn with weights that differ
+    // strongly from one segment to the next (a value that is frequent in one segment is rare or
+    // absent in another): the group of equal keys in which a page cut falls spans several segments,
+    // and the per-segment top lists contribute very unequal shares of it
+    let drift: Option<Vec<Vec<u32>>> = if rng.chance(if nchunks >= 4 { 2 } else { 1 }, 4) {
+        Some(
+            (0..nchunks)
+                .map(|_| {
+                    (0..5)
+                        .map(|_| {
+                            let x = rng.f64();
+                            (x.powi(8) * 1000.0) as u32 + 1
+                        })
+                        .collect()
+                })
+                .collect(),
+        )
     } else {
         None
-    };
-    let run_val = |i: usize| -> Option<u64> {
-        runs.map(|(g, desc)| if desc { (n - 1 - i) as u64 / g } else { i as u64 / g })
     };
     let miss = |rng: &mut Rng| *rng.pick(&[0u64, 0, 10, 50, 90]);
     let (mu, mi, mf, md, ms, mb) = (miss(rng), miss(rng), miss(rng), miss(rng), miss(rng), miss(rng));
@@ -1234,8 +1265,8 @@ fn gen_corpus(rng: &mut Rng, quick: bool) -> Corpus {
             !rng.chance(m, 100)
         };
         if present(rng, mu, FF::U) {
-            d.fu = Some(if let Some(v) = run_val(i) {
-                v
+            d.fu = Some(if let Some(w) = &drift {
+                [0u64, 1, 2, 7, 9][rng.weighted(&w[chunk])]
             } else if few_values {
                 *rng.pick(&[0u64, 1, 2, 7])
             } else {
@@ -1249,8 +1280,8 @@ fn gen_corpus(rng: &mut Rng, quick: bool) -> Corpus {
             });
         }
         if present(rng, mi, FF::I) {
-            d.fi = Some(if let Some(v) = run_val(i) {
-                v as i64 - 50
+            d.fi = Some(if let Some(w) = &drift {
+                [-1i64, 0, 1, 5, 8][rng.weighted(&w[chunk])]
             } else if few_values {
                 *rng.pick(&[-1i64, 0, 1, 5])
             } else {
@@ -1264,8 +1295,8 @@ fn gen_corpus(rng: &mut Rng, quick: bool) -> Corpus {
             });
         }
         if present(rng, mf, FF::F) {
-            d.ff = Some(if let Some(v) = run_val(i) {
-                v as f64 * 0.25 - 3.0
+            d.ff = Some(if let Some(w) = &drift {
+                [-2.5f64, 0.0, 0.5, 1e10, 3.0][rng.weighted(&w[chunk])]
             } else if few_values {
                 *rng.pick(&[-2.5f64, 0.0, 0.5, 1e10])
             } else {
@@ -1281,8 +1312,8 @@ fn gen_corpus(rng: &mut Rng, quick: bool) -> Corpus {
             });
         }
         if present(rng, md, FF::D) {
-            d.fd = Some(if let Some(v) = run_val(i) {
-                1_600_000_000 + v as i64 * 3600
+            d.fd = Some(if let Some(w) = &drift {
+                [0i64, 86_400, 1_700_000_000, 3600, -86_400][rng.weighted(&w[chunk])]
             } else if few_values {
                 *rng.pick(&[0i64, 86_400, 1_700_000_000])
             } else {
@@ -1290,8 +1321,8 @@ fn gen_corpus(rng: &mut Rng, quick: bool) -> Corpus {
             });
         }
         if present(rng, ms, FF::S) {
-            d.fs = Some(if let Some(v) = run_val(i) {
-                format!("k{v:06}")
+            d.fs = Some(if let Some(w) = &drift {
+                ["a", "b", "zz", "c", "d"][rng.weighted(&w[chunk])].to_string()
             } else if few_values {
                 (*rng.pick(&["a", "b", "zz"])).to_string()
             } else if rng.chance(1, 3) {
@@ -1328,8 +1359,8 @@ fn gen_corpus(rng: &mut Rng, quick: bool) -> Corpus {
         deletes,
         mode,
         del_mode,
-        value_profile: if runs.is_some() {
-            "runs-in-insertion-order"
+        value_profile: if drift.is_some() {
+            "few-values-with-per-segment-weights"
         } else if few_values {
             "few-values"
         } else {
@@ -1654,7 +1685,7 @@ fn check_exact(
             let _ = merge_truncates;
             format!("{}:{}", c.kind.family(), p)
         };
-        if std::env::var("C06_TMP_LOG").is_ok() { eprintln!("TMPV {} {} {} nseg={} K={k} O={o} {}", c.corpus_desc["case"], c.corpus_desc["mode"], sig, c.corpus_desc["segments"], c.qdesc); } // TMPDEBUG
+        if std::env::var("C06_TMP_LOG").is_ok() { eprintln!("TMPV {} {} {} nseg={} K={k} O={o} m={m} {} {} {} {}", c.corpus_desc["case"], c.corpus_desc["mode"], sig, c.corpus_desc["segments"], c.qdesc, c.kind.name(), c.corpus_desc["max_docs"], c.corpus_desc["fast_field_values"]); } // TMPDEBUG
         rep.violation(
             sig,
             json!({
@@ -1741,7 +1772,7 @@ fn check_approx(
         } else {
             format!("{}:{}[float-sum]", c.kind.family(), p)
         };
-        if std::env::var("C06_TMP_LOG").is_ok() { eprintln!("TMPV {} {} {} nseg={} K={k} O={o} {}", c.corpus_desc["case"], c.corpus_desc["mode"], sig, c.corpus_desc["segments"], c.qdesc); } // TMPDEBUG
+        if std::env::var("C06_TMP_LOG").is_ok() { eprintln!("TMPV {} {} {} nseg={} K={k} O={o} m={m} {} {} {} {}", c.corpus_desc["case"], c.corpus_desc["mode"], sig, c.corpus_desc["segments"], c.qdesc, c.kind.name(), c.corpus_desc["max_docs"], c.corpus_desc["fast_field_values"]); } // TMPDEBUG
         rep.violation(
             sig,
             json!({
@@ -2063,6 +2094,35 @@ fn case(case: u64, rng: &mut Rng, rep: &mut Report, quick: bool) {
                 let o = *rng.pick(&[0usize, 0, 0, 1, 3]);
                 plan.push((SortKind::Score, k, o, false));
                 rep.count("extra_small_K_score_searches_on_block_max_paths", 1);
+            }
+        }
+        // four or more segments that each hold more matches than O+K: every per-segment top list
+        // is cut to O+K entries (and handed over in no particular order), the merge receives far
+        // more than 2(O+K) entries and has to cut repeatedly, in the middle of a segment's list
+        if nseg >= 4 && m >= 8 {
+            let mut counts: Vec<usize> = per_seg.values().copied().collect();
+            counts.sort_unstable_by(|a, b| b.cmp(a));
+            if counts.len() >= 4 {
+                for _ in 0..4 {
+                    let c = counts[rng.urange(3, counts.len() - 1)];
+                    if c < 4 {
+                        continue;
+                    }
+                    let cut = rng.urange((c * 35 / 100).max(2), (c * 95 / 100).max(2));
+                    let o = (*rng.pick(&[0usize, 0, 1, 3, cut / 2, cut - 1])).min(cut - 1);
+                    let kind = loop {
+                        let k = if rng.chance(3, 4) {
+                            random_field_kind(rng)
+                        } else {
+                            random_sort_kind(rng, exact_q)
+                        };
+                        if exact_q || !k.uses_score() {
+                            break k;
+                        }
+                    };
+                    plan.push((kind, cut - o, o, false));
+                    rep.count("searches_with_O+K_below_the_match_count_of_4_or_more_segments", 1);
+                }
             }
         }
         // targeted (K,O): the cut O+K falls inside a group of equal keys that lies in the third or
